@@ -64,9 +64,12 @@ Definition remove_unused_wires (nl : netlist) : netlist :=
    destination is not an Output disappear, every argument is redirected to its
    ultimate producer *)
 Definition remove_nets_by (sel : net -> bool) (nl : netlist) : netlist :=
-  let m := flat_map (fun n => if sel n then [(ndest n, arg n 0)] else []) (nets nl) in
-  let fuel := S (length (nets nl)) in
   let gone := fun n => sel n && negb (is_output nl (ndest n)) in
+  (* the code also records dest -> source for identity nets that drive an Output,
+     but an Output is never an argument (sanity_check), so those links are never
+     followed; the model keeps only the links that can be *)
+  let m := flat_map (fun n => if gone n then [(ndest n, arg n 0)] else []) (nets nl) in
+  let fuel := S (length (nets nl)) in
   let ns := flat_map (fun n => if gone n then []
                                else [map_args (find_producer fuel m) n]) (nets nl) in
   let dead := flat_map (fun n => if gone n then [ndest n] else []) (nets nl) in
